@@ -2,6 +2,7 @@ SPECIFICATION Spec
 CONSTANTS
   GetTagSteps = 1
   CommitSnapshots = TRUE
+  CommitSerialized = TRUE
   TwoPhaseCommit = FALSE
   Prog <- ProgBase
 INVARIANTS Linearizable StoredMatchesKey TagNeverFalselyMissing
